@@ -75,6 +75,7 @@ REQUIRED = [
     'EdbVerif.C09.reuse_fixed_compiles_on_callers_state', 'EdbVerif.C09.reuse_fixed_rejected_script',
     'EdbVerif.C09.reuse_fixed_is_pickle', 'EdbVerif.C09.protocol_refines_reuse',
     'EdbVerif.C09.reuse_script_counterexample_poolBuggy',
+    'EdbVerif.C09.detached_rescue', 'EdbVerif.C09.detached_later_savepoint_counterexample',
 ]
 
 E = immutables.Map()
@@ -1094,9 +1095,15 @@ def classify_uncovered(evs, upto: int, transport: str = 'p') -> str | None:
     place, which is tested but not proved)."""
     pg = PG2((0, 0, 0, 0))
     cls = None
+    mark = None       # number of frames right after the last accepted ROLLBACK TO of this block
     for (stmt, cf, bf) in evs[:upto + 1]:
         w = stmt.split(' ')
         healthy = pg.in_tx and not pg.failed
+        if healthy and '; ' not in stmt and ((w[0] == 'C' and bf == 2) or (w[0] == 'R' and bf)) \
+                and mark is not None and len(pg.frames) > mark:
+            # detaching failure while a savepoint declared after the server's savepoint id is alive:
+            # sync_to_savepoint purges it when it re-attaches the transaction
+            cls = cls or 'detached-later-savepoint'
         if bf and w[0] == 'S' and not pg.in_tx and not cf:
             cls = cls or 'fault-start'
         if bf and healthy and w[0] == 'D':
@@ -1110,7 +1117,13 @@ def classify_uncovered(evs, upto: int, transport: str = 'p') -> str | None:
                     gone = {n for n, _ in pg.frames[i:]}
                     if gone & {n for n, _ in pg.frames[:i]}:
                         cls = cls or 'release-shadowed'
-        pg.step(stmt, cf, bf)
+        r = pg.step(stmt, cf, bf)
+        if not pg.in_tx:
+            mark = None
+        elif w[0] == 'B' and r == 'ok' and '; ' not in stmt:
+            mark = len(pg.frames)
+        elif mark is not None:
+            mark = min(mark, len(pg.frames))
     return cls
 
 
@@ -1277,6 +1290,8 @@ def gen_l2_random(rng, n_cases, maxlen, covered: bool):
                 detached -= 1 if detached > 1 else 0
             # after an accepted ROLLBACK TO: maybe  [payload]; COMMIT/ROLLBACK that fails in place
             if w0 == 'B' and r == 'ok' and not queue and rng.random() < pdet:
+                if not covered and rng.random() < 0.3:
+                    queue.append(('D', False, 0))       # a later savepoint: known divergence
                 if rng.random() < 0.6:
                     queue.append((rng.choice(['U', 'A', 'F', 'Q']), False, 0))
                 queue.append(rng.choice([('C', False, 2), ('R', False, 1)]))
@@ -1355,6 +1370,8 @@ WITNESSES = {
     'fault-declare': [('S', 0, 0), ('D 1', 0, 0), ('B 1', 0, 0), ('U 5 6', 0, 0), ('D 1', 0, 1),
                       ('B 1', 0, 0), ('Q', 0, 0)],
     'fault-start': [('S', 0, 1), ('Q', 0, 0)],
+    'detached-later-savepoint': [('S', 0, 0), ('D 1', 0, 0), ('B 1', 0, 0), ('Q', 0, 0), ('D 2', 0, 0), ('C', 0, 2),
+                                 ('B 2', 0, 0)],
 }
 
 
@@ -1448,7 +1465,7 @@ def run(ctx: core.Ctx):
         for c in gen_l2_random(rng, ctx.budget(700, 15000), 30, covered=False):
             l2_cases.append((c, 'uncovered'))
         for k, evs in WITNESSES.items():
-            l2_cases.append((('p', (1, 2, 3, 4), [(s, bool(c), bool(b)) for s, c, b in evs]), 'witness:' + k))
+            l2_cases.append((('p', (1, 2, 3, 4), [(s, bool(c), int(b)) for s, c, b in evs]), 'witness:' + k))
         # the REUSE transport on a statement that is rejected after it has written to the state
         for name, c in REGRESSIONS():
             l2_cases.insert(0, (c, 'regression'))
